@@ -8,6 +8,63 @@ Import ListNotations.
 Open Scope Z_scope.
 Require Import MW.Ledger.Model MW.Ledger.Spec MW.Ledger.Run MW.Ledger.Pending MW.Ledger.PendingProofs.
 
+(* ---- every deposit appears exactly once, with the right data, withdrawn iff spent *)
+
+(* [rows_ok cs g]: the mined deposit rows g are exactly the staking/binding credits cs — every such credit
+   has its row whose withdrawn bit is its spent mark, every row belongs to a credit, no row twice.
+   Given that, the histories the wallet reports are exactly its deposit credits, each once, with the
+   credit's amount / address / frozen period / height, withdrawn iff spent.  The link from credits to the
+   best chain (a credit per output paying the wallet, spent iff a best-chain transaction spends it) is
+   C01's theorem about the same [wstate]. *)
+Theorem C10_history_exact :
+  forall n s w binding excl,
+    rows_ok (credits (ps_w s)) (ps_game s) -> cred_unique (credits (ps_w s)) ->
+    (forall c, In c (credits (ps_w s)) -> c_height c <> 0) ->
+    (forall hr, In hr (mined_history n s w binding excl) <->
+      exists c, In c (credits (ps_w s)) /\ c_wallet c = w /\ game_kind (c_class c) = Some binding /\
+                (excl = true -> is_unspent c = true) /\
+                (binding = true -> binding_tx_readable n s (c_tx c) (c_height c) = true) /\
+                hr = hrow_of s c binding) /\
+    NoDup (map (fun hr => (hr_tx hr, hr_height hr, hr_vout hr)) (mined_history n s w binding excl)).
+Proof.
+  intros n s w binding excl R U H. split; [apply mined_history_exact; assumption|apply mined_history_once; exact R].
+Qed.
+Print Assumptions C10_history_exact.
+
+(* [rows_ok] is kept by every mined record (AddRelevantTx: updateMinedBalance flips the rows of the
+   deposits it spends, AddCredits adds the rows of the deposits it creates); key uniqueness of the
+   credits is C01's invariant and enters as a premise.  The same for Rollback is NOT proved as an
+   invariant (it needs C01's block-record invariant); C10_rollback_rows_partial is the step lemma, the
+   correspondence check compares the buckets themselves across reorganisations. *)
+Theorem C10_history_rows_connect_partial :
+  forall p h bid recs m m', m_apply_recs p h bid m recs = Some m' ->
+    rows_ok (credits (m_w m)) (m_game m) ->
+    (forall k mk, m_apply_recs p h bid m (firstn k recs) = Some mk -> cred_unique (credits (m_w mk))) ->
+    rows_ok (credits (m_w m')) (m_game m').
+Proof. exact m_apply_recs_rows_ok. Qed.
+Print Assumptions C10_history_rows_connect_partial.
+
+(* m_apply_recs is the mined side of the pending-aware connect (and its ledger part is C01's connect_block) *)
+Theorem C10_history_rows_connect_is_the_store :
+  forall p own h bid recs s s', p_apply_recs p own h bid s recs = POk s' ->
+    m_apply_recs p h bid (mined s) recs = Some (mined s').
+Proof. exact p_apply_recs_mined. Qed.
+Print Assumptions C10_history_rows_connect_is_the_store.
+
+(* Rollback of a withdrawal: exactly the rows of the deposits the rolled-back transaction had spent flip
+   back to "not withdrawn"; no other row changes *)
+Theorem C10_rollback_rows_partial :
+  forall idx cs g tid h g', unwithdraw_ins cs g tid h idx = POk g' ->
+    (forall x, In x g' -> In x g \/ exists i c b, In i idx /\ debit_of cs tid i h = Some c /\ game_kind (c_class c) = Some b /\
+                                       x = mk_grow (c_wallet c) b false (c_tx c) (c_height c) (c_vout c)) /\
+    (forall x, In x g -> In x g' \/ exists i c b, In i idx /\ debit_of cs tid i h = Some c /\ game_kind (c_class c) = Some b /\
+                                       x = mk_grow (c_wallet c) b true (c_tx c) (c_height c) (c_vout c)) /\
+    (NoDup g -> NoDup g').
+Proof. exact unwithdraw_ins_effect. Qed.
+Print Assumptions C10_rollback_rows_partial.
+
+(* ---- excluded from ordinary funds and automatic selection *)
+
 (* deposits are never chosen by automatic coin selection, nor are flagged, spent or immature coins *)
 Theorem C10_excluded_from_selection :
   forall s w c, In c (eligible_list s w) ->
@@ -82,3 +139,56 @@ Theorem C10_sequence :
     end.
 Proof. exact built_sequence_required. Qed.
 Print Assumptions C10_sequence.
+
+(* ---- the statements are not vacuous: a deposit, its withdrawal, and the withdrawal reorganised away *)
+Module Ex10.
+  Definition p : params := {| p_cbmat := 1; p_bindlock := 4294967294 |}.
+  Definition g : block := {| b_id := 0; b_prev := 0; b_height := 0; b_txs := [] |}.
+  Definition cb (id : N) : tx := {| t_id := id; t_cb := true; t_ins := []; t_outs := [ {| o_sh := 1; o_val := 5; o_class := CStd |} ] |}.
+  Definition dep : tx := {| t_id := 10; t_cb := false; t_ins := [(1, 0)%N]; t_outs := [ {| o_sh := 1; o_val := 5; o_class := CStaking 2 |} ] |}.
+  Definition wd : tx := {| t_id := 11; t_cb := false; t_ins := [(10, 0)%N]; t_outs := [ {| o_sh := 1; o_val := 5; o_class := CStd |} ] |}.
+  Definition b1 : block := {| b_id := 1; b_prev := 0; b_height := 1; b_txs := [cb 1] |}.
+  Definition b2 : block := {| b_id := 2; b_prev := 1; b_height := 2; b_txs := [cb 2; dep] |}.
+  Definition b3 : block := {| b_id := 3; b_prev := 2; b_height := 3; b_txs := [cb 3] |}.
+  Definition b4 : block := {| b_id := 4; b_prev := 3; b_height := 4; b_txs := [cb 4] |}.
+  Definition b5 : block := {| b_id := 5; b_prev := 4; b_height := 5; b_txs := [cb 5; wd] |}.
+  Definition b5' : block := {| b_id := 6; b_prev := 4; b_height := 5; b_txs := [cb 6] |}.
+  Definition upto4 : list pevent :=
+    [PvOwner 1 1; PvAttach b1; PvProcess b1; PvAttach b2; PvProcess b2; PvAttach b3; PvProcess b3; PvAttach b4; PvProcess b4].
+  Definition sim (evs : list pevent) := prun p true g evs.
+  Definition hist (evs : list pevent) (excl : bool) :=
+    map (fun r => (hr_tx r, hr_vout r, hr_amount r, hr_frozen r, hr_height r, hr_spent r, hr_pending r))
+        (game_history (q_node (sim evs)) (h_store (q_h (sim evs))) 1%N false excl).
+End Ex10.
+
+(* deposited at height 2 with frozen period 2: listed once; not withdrawable at tip 3 (next height 4 < 2+2+1),
+   withdrawable at tip 4 (next height 5) *)
+Example C10_example_deposit :
+  Ex10.hist Ex10.upto4 false = [(10%N, 0%N, 5, 2, 2, false, false)] /\
+  bal_wstaking (ps_w (h_store (q_h (Ex10.sim (firstn 7 Ex10.upto4))))) 1%N = 0 /\
+  bal_wstaking (ps_w (h_store (q_h (Ex10.sim Ex10.upto4)))) 1%N = 5 /\
+  eligible_list (h_store (q_h (Ex10.sim Ex10.upto4))) 1%N <> [] /\
+  Forall (fun c => is_std c = true) (eligible_list (h_store (q_h (Ex10.sim Ex10.upto4))) 1%N).
+Proof.
+  split; [vm_compute; reflexivity|]. split; [vm_compute; reflexivity|]. split; [vm_compute; reflexivity|].
+  split; [vm_compute; discriminate|]. vm_compute. repeat constructor.
+Qed.
+
+(* withdrawn at height 5: shown as withdrawn, and absent from the "exclude withdrawn" list; when the
+   withdrawal is reorganised away it is shown as not withdrawn again (and the withdrawal is pending) *)
+Example C10_example_withdraw_and_reorg :
+  Ex10.hist (Ex10.upto4 ++ [PvAttach Ex10.b5; PvProcess Ex10.b5]) false = [(10%N, 0%N, 5, 2, 2, true, false)] /\
+  Ex10.hist (Ex10.upto4 ++ [PvAttach Ex10.b5; PvProcess Ex10.b5]) true = [] /\
+  Ex10.hist (Ex10.upto4 ++ [PvAttach Ex10.b5; PvProcess Ex10.b5; PvDetach; PvAttach Ex10.b5'; PvProcess Ex10.b5']) true
+    = [(10%N, 0%N, 5, 2, 2, false, false)] /\
+  read_unmined (h_store (q_h (Ex10.sim (Ex10.upto4 ++ [PvAttach Ex10.b5; PvProcess Ex10.b5; PvDetach; PvAttach Ex10.b5'; PvProcess Ex10.b5'])))) 11%N
+    = RdOk Ex10.wd.
+Proof. vm_compute. repeat split; reflexivity. Qed.
+
+(* the sequence the wallet writes for that withdrawal, and consensus admitting it exactly from height 5 on *)
+Example C10_example_sequence :
+  let bp := {| bp_warmup := 1398801; bp_bindlock := 4294967294 |} in
+  built_sequence bp 0 (CStaking 2) 2 = 3 /\ required_sequence bp (CStaking 2) 2 = Some 3 /\
+  sequence_lock_active 2 3 4 = false /\ sequence_lock_active 2 3 5 = true /\
+  csv_ok (Some 3) max_sequence = false.
+Proof. vm_compute. repeat split; reflexivity. Qed.
